@@ -125,6 +125,13 @@ func (t *Tree) backup3() {
 	t.backup()
 }
 
+// backupTo pushes back every token read since the read stack had the given length.
+func (t *Tree) backupTo(mark int) {
+	for len(t.read) > mark {
+		t.backup()
+	}
+}
+
 // next returns the next unread token and advances the internal cursor by one.
 func (t *Tree) next() token {
 	var tok token
